@@ -159,6 +159,15 @@ def run(tier, v):
                 info[(o["id"], k)] = (ti, cfg, k)
                 f.write(json.dumps({"id": o["id"], "k": k, "cfg": cfg, "res": res, "uni": uni}) + "\n")
     r2 = vlib.tlc("TV_C20", pid=PID, workers=8, env={"TRACE": trace}, timeout=1800, heap="10g")
+
+    if tier == "thorough":
+        def mut(rows):
+            k = next(i for i, r_ in enumerate(rows) if any(r_["uni"][nm] for nm in r_["uni"]))
+            r_ = json.loads(json.dumps(rows[k]))
+            nm = next(n_ for n_ in r_["uni"] if r_["uni"][n_])
+            r_["uni"][nm][0]["raw"] = "corrupted"
+            return rows[:20] + [r_], "the raw part of one field of one unified result is altered"
+        v.binding.append(vlib.binding_demo("TV_C20", trace, mut, PID, workers=4, timeout=900, heap="4g"))
     for b in r2.lines.get("BAD", []):
         ti, cfg, k = info[(b["id"], b["k"])]
         v.violation({"cfg": cfg, "packet_index": k, "frame": traces[ti][k].hex(), "fields_that_differ": b["fields"], "expected_from_protocol_analyzers": b["want"], "unified_reported": b["got"]})
